@@ -166,6 +166,11 @@ class World:
         self.objs = {0: self.otarget}
         for k in range(1, self.NOBJ + 1):
             self.objs[k] = X(k)
+        # objects with NEGATIVE keys are bound methods (CallableSlicer -> getTrackerForMyCall: negative clids from the same
+        # counter, in the same tables; the holder gets a RemoteMethodReference); model: Send x with x < 0
+        self.method_owners = {k: X(100 - k) for k in (-1, -2)}
+        for k, o in self.method_owners.items():
+            self.objs[k] = o.remote_ping
         self.held = {}            # pid -> proxy (the only strong references to proxies)
         self.obj_of = {}          # pid -> k (which object was sent when this proxy was delivered)
         self.npid = 0
@@ -361,14 +366,14 @@ class World:
             return [], None
         info = self.inflight_ho.pop(0)
         data = self.tH.q.pop(0)
-        pings = {k: o.pings for k, o in self.objs.items() if k}
+        pings = {k: o.pings for k, o in self.objs.items() if k > 0}
         self.O.dataReceived(data)
         self.turn()
         obs = None
         if info[0] == "home":
             _, pid, k, iscall = info
             if iscall:
-                hit = [kk for kk, o in self.objs.items() if kk and o.pings != pings[kk]]
+                hit = [kk for kk, o in self.objs.items() if kk > 0 and o.pings != pings[kk]]
                 obs = hit[0] if len(hit) == 1 else -1
                 if hit != [k]:
                     self.problems.append(("oracle/call-misrouted", "a call through the proxy of object %d reached %r" % (k, hit)))
@@ -403,8 +408,8 @@ class World:
     def a_home(self, pid, iscall, mode="only"):
         if pid not in self.held:
             return [], None
-        if (iscall and self.obj_of[pid] == 0) or (not iscall and 0 not in self.held):
-            return [], None
+        if (iscall and self.obj_of[pid] == 0) or (not iscall and 0 not in self.held) or self.obj_of[pid] < 0:
+            return [], None          # (method references are only sent and dropped in these histories)
         if self.lost:
             p = self.held[pid]
             if mode == "call":
@@ -514,10 +519,12 @@ class World:
                 if self.clid_obj[c] != k:
                     P.append(("oracle/clid-reused", "clid %d designated object %r and now designates %r" % (c, self.clid_obj[c], k)))
             else:
-                if c <= self.max_clid:
-                    P.append(("oracle/clid-reused", "clid %d allocated after clid %d" % (c, self.max_clid)))
+                if abs(c) <= self.max_clid:        # (bound methods get the negated number: |clid| is what the counter hands out)
+                    P.append(("oracle/clid-reused", "clid %d allocated after clid +-%d" % (c, self.max_clid)))
+                if (c < 0) != (k is not None and k < 0):
+                    P.append(("oracle/clid-reused", "clid %d designates %s" % (c, "a bound method" if (k is not None and k < 0) else "a Referenceable")))
                 self.clid_obj[c] = k
-                self.max_clid = max(self.max_clid, c)
+                self.max_clid = max(self.max_clid, abs(c))
             if t.refcount < 1:
                 P.append(("oracle/refcount-not-positive", "export entry clid %d has refcount %d" % (c, t.refcount)))
             if O.myReferenceByPUID.get(t.puid) is not t:
@@ -543,7 +550,7 @@ class World:
         for info in self.inflight:
             if info[0] == "refs":
                 for k in info[1]:
-                    t = O.myReferenceByPUID.get(self.objs[k].processUniqueID())
+                    t = O.myReferenceByPUID.get(self.objs[k].processUniqueID() if k >= 0 else id(self.objs[k]))
                     if t is None or t.refcount < 1:
                         P.append(("oracle/released-early", "a reference to object %d is in flight but the owner has no entry" % k))
         # a release never exceeds what was handed out
@@ -575,6 +582,7 @@ class World:
         left = {self.key_of(t.obj): t.refcount for c, t in self.O.myReferenceByCLID.items() if t.obj is not self.otarget}
         wr = {k: weakref.ref(o) for k, o in self.objs.items() if k}
         self.objs = {0: self.otarget}
+        self.method_owners = {}
         gc.collect()
         pinned = sorted(k for k, w in wr.items() if w() is not None)
         return left, pinned
@@ -596,6 +604,7 @@ PROFILES = {
     "mixed": ([1, 2, 3, 4], dict(send=5, oh=5, ho=4, drop=4, home=3, lost=0), 0.0, 0.3),
     "discard": ([1, 2, 3], dict(send=5, oh=5, ho=4, drop=4, home=1, lost=0), 0.3, 0.2),
     "loss": ([1, 2, 3], dict(send=5, oh=4, ho=3, drop=3, home=2, lost=1, arm=1), 0.1, 0.3),
+    "methods": ([1, -1, -2], dict(send=5, oh=5, ho=4, drop=5, home=1, lost=0), 0.05, 0.25),
 }
 
 
@@ -818,7 +827,7 @@ SIG_PROPERTY = {
 
 def coq_op(o):
     if o[0] == "Send":
-        return "Send %d %s" % (o[1], "true" if o[2] else "false")
+        return "Send (%d) %s" % (o[1], "true" if o[2] else "false")
     if o[0] == "DropProxy":
         return "DropProxy %d" % o[1]
     if o[0] == "SendHome":
